@@ -86,6 +86,45 @@ func runC17(c *Ctx, r *Report, tier string) {
 		}
 	}
 	r.Check(len(badF) == 0, "COLUMN", c.fname(ds), "fields read", c.pos(ds.Pos()), "reads only maxLongLen, hasShort, hasValueName (not the per-row indent)", "also reads "+strings.Join(badF, ", "))
+	// the alignment is computed afresh for every help output (it depends on the active command and on the declarations
+	// at that moment): what getAlignmentInfo returns is its own local, never state kept from an earlier call
+	for _, ret := range returnsOf(gai) {
+		t := c.term(ret.Results[0])
+		r.Check(t == "cell:alignmentInfo" || t == "new:alignmentInfo", "COLUMN", c.fname(gai), "the alignment returned is the one just computed", c.ipos(ret), "returns the local alignmentInfo", "returns "+trunc(t, 80)+": an alignment remembered from an earlier call — the next help output (another active command, changed declarations) is laid out with a stale column")
+	}
+	// each part of the column is reserved exactly when some row prints it: "-x" under hasShort, ", --" as soon as any
+	// long name exists (maxLongLen > 0), "=value" under hasValueName
+	{
+		want := map[int64]string{2: "alignmentInfo.hasShort(P0)", 4: "lt(0, alignmentInfo.maxLongLen(P0))", 3: "alignmentInfo.hasValueName(P0)"}
+		seen := map[int64]bool{}
+		for _, b := range c.blocks(ds) {
+			for _, in := range b.Instrs {
+				bo, ok := in.(*ssa.BinOp)
+				if !ok || bo.Op != token.ADD {
+					continue
+				}
+				k, isK := constInt(bo.Y)
+				if !isK {
+					continue
+				}
+				deps := c.controlDeps(ds, b)
+				if len(deps) == 0 {
+					continue // the unconditional distance between option and description
+				}
+				var lits []string
+				for _, d := range deps {
+					if l, ok := c.edgeLit(d.B, d.Succ); ok {
+						lits = append(lits, l.String())
+					}
+				}
+				w, known := want[k]
+				seen[k] = true
+				okG := known && len(lits) == 1 && (lits[0] == w || k == 4 && lits[0] == "nonzero(alignmentInfo.maxLongLen(P0))")
+				r.Check(okG, "COLUMN", c.fname(ds), fmt.Sprintf("the %d columns of the description start are reserved under the right condition", k), c.ipos(in), "+"+fmt.Sprint(k)+" exactly under "+w, "+"+fmt.Sprint(k)+" is added under "+strings.Join(lits, " ∧ ")+": rows that print that part are wider than the column computed for them (negative padding)")
+			}
+		}
+		r.Check(seen[2] && seen[4] && seen[3], "COLUMN", c.fname(ds), "the three conditional parts of the column", c.pos(ds.Pos()), "+2 (short), +4 (long separator), +3 (value name)", fmt.Sprintf("found %v", seen))
+	}
 	colExpr := "(call:(*alignmentInfo).descriptionStart(new:alignmentInfo) + 2)"
 	// option rows
 	var optCol ssa.Value
